@@ -47,7 +47,9 @@ func containsCodec(cs []string, c string) bool {
 }
 
 func targetDuration(segments []muxerSegment) int {
-	ret := int(0)
+	// a target duration of zero is refused by clients (including this library's)
+	// and makes the skip boundary of delta updates collapse.
+	ret := int(1)
 
 	// EXTINF, when rounded to the nearest integer, must be <= EXT-X-TARGETDURATION
 	for _, sog := range segments {
